@@ -17,6 +17,9 @@
 #include <boost/serialization/vector.hpp>
 #include <boost/serialization/string.hpp>
 #include <condition_variable>
+#if !defined(VMPI_THREADS)
+#include <ucontext.h>
+#endif
 #include <functional>
 #include <map>
 #include <mutex>
@@ -66,10 +69,15 @@ struct World {
 };
 
 inline World *&current_world() { static World *w = nullptr; return w; }
+#ifdef VMPI_THREADS
 inline int &current_rank() { static thread_local int r = 0; return r; }
+#else
+inline int &current_rank() { static int r = 0; return r; }     // fibers: set by the scheduler before every switch
+#endif
 
 struct Aborted {};
 
+#ifdef VMPI_THREADS
 // called by a rank thread: hand the baton back to the scheduler and wait until it comes back
 inline void yield_to_scheduler(World &w, int r) {
     std::unique_lock<std::mutex> lk(w.mu);
@@ -78,6 +86,25 @@ inline void yield_to_scheduler(World &w, int r) {
     w.cv.wait(lk, [&] { return w.baton == r || w.aborted; });
     if (w.aborted && w.baton != r) throw Aborted();
 }
+#else
+// Ranks are user-level coroutines (ucontext): a switch costs ~100 ns instead of a futex round trip, which is what makes
+// tens of thousands of P-rank executions per second possible. Thread mode (-DVMPI_THREADS) is kept for sanitizer builds.
+struct Fibers {
+    ucontext_t sched;
+    std::vector<ucontext_t> ctx;
+    std::vector<char*> stacks;
+    const std::function<void(int)> *body = nullptr;
+    World *world = nullptr;
+};
+inline Fibers &fibers() { static Fibers f; return f; }
+constexpr std::size_t VMPI_STACK = 1u << 20;
+inline void yield_to_scheduler(World &w, int r) {
+    Fibers &F = fibers();
+    swapcontext(&F.ctx[r], &F.sched);
+    current_rank() = r;
+    if (w.aborted) throw Aborted();
+}
+#endif
 
 inline std::string describe(World &w) {
     std::ostringstream os;
@@ -135,6 +162,7 @@ inline void execute_collective(World &w) {
     for (int i = 0; i < w.P; ++i) w.rs[i].waiting = false;
 }
 
+#ifdef VMPI_THREADS
 // Runs body(rank) on P rank threads under the baton scheduler. Returns false on deadlock (description in world).
 inline bool run_ranks(World &w, const std::function<void(int)> &body) {
     current_world() = &w;
@@ -152,7 +180,6 @@ inline bool run_ranks(World &w, const std::function<void(int)> &body) {
     {
         std::unique_lock<std::mutex> lk(w.mu);
         for (;;) {
-            // pick the next runnable rank
             int next = -1;
             for (int r : w.baton_order) if (!w.rs[r].returned && !w.rs[r].waiting) { next = r; break; }
             if (next < 0) {
@@ -173,6 +200,55 @@ inline bool run_ranks(World &w, const std::function<void(int)> &body) {
     current_world() = nullptr;
     return !w.deadlock;
 }
+#else
+inline void fiber_entry() {
+    Fibers &F = fibers();
+    World &w = *F.world;
+    int r = current_rank();
+    try { (*F.body)(r); }
+    catch (Aborted &) { w.rs[r].returned = true; w.rs[r].waiting = false; return; }
+    catch (std::exception &e) { w.rank_errors.push_back("rank " + std::to_string(r) + ": exception: " + e.what()); }
+    catch (...) { w.rank_errors.push_back("rank " + std::to_string(r) + ": unknown exception"); }
+    w.rs[r].returned = true; w.rs[r].waiting = false;
+    // returning switches to uc_link = the scheduler context
+}
+// Runs body(rank) on P rank coroutines under the baton scheduler. Returns false on deadlock (description in world).
+inline bool run_ranks(World &w, const std::function<void(int)> &body) {
+    Fibers &F = fibers();
+    current_world() = &w; F.world = &w; F.body = &body;
+    while ((int) F.stacks.size() < w.P) F.stacks.push_back((char*) std::malloc(VMPI_STACK));
+    F.ctx.assign(w.P, ucontext_t());
+    std::vector<char> started(w.P, 0);
+    for (int r = 0; r < w.P; ++r) {
+        getcontext(&F.ctx[r]);
+        F.ctx[r].uc_stack.ss_sp = F.stacks[r]; F.ctx[r].uc_stack.ss_size = VMPI_STACK; F.ctx[r].uc_link = &F.sched;
+        makecontext(&F.ctx[r], (void (*)()) fiber_entry, 0);
+    }
+    for (;;) {
+        int next = -1;
+        for (int r : w.baton_order) if (!w.rs[r].returned && !w.rs[r].waiting) { next = r; break; }
+        if (next < 0) {
+            bool all_ret = true;
+            for (int r = 0; r < w.P; ++r) all_ret &= w.rs[r].returned;
+            if (all_ret) break;
+            bool same = true;
+            for (int r = 0; r < w.P; ++r) { if (w.rs[r].returned) { same = false; break; } same &= w.rs[r].waiting && w.rs[r].kind == w.rs[0].kind && w.rs[r].root == w.rs[0].root && w.rs[r].seq == w.rs[0].seq; }
+            if (!same) {
+                w.deadlock = true; w.deadlock_desc = describe(w); w.aborted = true;
+                // unwind every suspended rank: resume it so that it throws Aborted out of its collective
+                for (int r = 0; r < w.P; ++r) if (!w.rs[r].returned && started[r]) { current_rank() = r; swapcontext(&F.sched, &F.ctx[r]); }
+                break;
+            }
+            execute_collective(w);
+            continue;
+        }
+        current_rank() = next; started[next] = 1;
+        swapcontext(&F.sched, &F.ctx[next]);
+    }
+    current_world() = nullptr;
+    return !w.deadlock;
+}
+#endif
 
 template<class T> std::string pack(const T &v) { std::ostringstream os; { boost::archive::binary_oarchive oa(os, boost::archive::no_header); oa << v; } return os.str(); }
 template<class T> void unpack(const std::string &s, T &v) { std::istringstream is(s); boost::archive::binary_iarchive ia(is, boost::archive::no_header); ia >> v; }
